@@ -4,8 +4,9 @@ From Coq Require Import List NArith Bool.
 From UV Require Import Base.Value Model.Uasm Model.UasmValue Model.UasmPlain Proofs.Uasm Proofs.UasmValue Proofs.UasmValueRt.
 Import ListNotations.
 
-(** Framing of the current reader (whole-line section markers, /repo 0f91cb1): reading back what
-    was written gives every section line back.  No premise about the CONTENTS of the sections:
+(** Framing of the current reader (whole-line section markers, /repo 0f91cb1; optional trailing
+    TEST ASSERTS section that is cut off first, /repo 69a2f06): reading back what was written
+    gives every section line back, the test assertion count included.  No premise about the CONTENTS of the sections:
     only that the written lines are lines (newline-free, not blank, no trailing blank) and contain
     some character other than A-Z and blank, which every line written by to_uasm does (checked on
     real assemblies by the tie on every run). *)
@@ -16,12 +17,22 @@ Proof. exact framing_roundtrip. Qed.
 (** Record of the defect repaired by 0f91cb1 (model of the reader before it: bare marker words
     found with split_once): correct only if no section body contains the marker that ends it ... *)
 Theorem C17_framing_roundtrip_pre : forall a,
-  sections_wf a = true -> no_marker_in_bodies a = true -> from_uasm_pre (to_uasm a) = inr (reread a).
+  sections_wf a = true -> no_marker_in_bodies a = true -> from_uasm_pre (to_uasm_pre a) = inr (reread_pre a).
 Proof. exact framing_roundtrip_pre. Qed.
 (** ... and wrong without: the program "DEPENDENCIES" (whose written lines have the right shape). *)
 Theorem C17_framing_refuted_pre : exists a, sections_wf a = true /\ written_shape a = true /\
-  from_uasm_pre (to_uasm a) <> inr (reread a) /\ from_uasm_pre (to_uasm a) <> inr a.
+  from_uasm_pre (to_uasm_pre a) <> inr (reread_pre a) /\ from_uasm_pre (to_uasm_pre a) <> inr a.
 Proof. exact framing_refuted_pre. Qed.
+(** Record of the defect repaired by 69a2f06: before it the text had no TEST ASSERTS section and
+    the reader gave the count 0 ([reread_pre] forgets [s_asserts]) - the whole-line reader of that
+    time was otherwise right ... *)
+Theorem C17_framing_roundtrip_mid : forall a,
+  sections_wf a = true -> written_shape a = true -> from_uasm_mid (to_uasm_pre a) = inr (reread_pre a).
+Proof. exact framing_roundtrip_mid. Qed.
+(** ... so an assembly with test assertions did not come back *)
+Theorem C17_test_asserts_lost_pre : exists a, sections_wf a = true /\ written_shape a = true /\
+  from_uasm_mid (to_uasm_pre a) <> inr (reread a).
+Proof. exact test_asserts_lost_pre. Qed.
 
 (** Values as JSON (ArrayRep / F64Rep / Value untagged enums, serde's first-variant-that-parses
     rule): a value meeting [plain_json] reads back as itself - [norm v]: same shape, same element
@@ -51,7 +62,7 @@ Proof. exact value_json_refuted_map. Qed.
 (** non-vacuity: a non-trivial assembly meets the premises *)
 Example C17_nonvacuous :
   let a := Sections [[123;125]] [] [[70;32;48]] [[102;32;49]; [32;32;99;111;109;109;101;110;116;58;32;123;125]]
-             [[91;93]] [] [] [[48;32;91;93]; []; [49]] [] [] [[34;97;34]] in
+             [[91;93]] [] [] [[48;32;91;93]; []; [49]] [] [] [[34;97;34]] [[51]] in
   sections_wf a = true /\ written_shape a = true /\ from_uasm (to_uasm a) = inr (reread a).
 Proof. vm_compute. repeat split; reflexivity. Qed.
 
@@ -66,6 +77,8 @@ Print Assumptions C17_value_json_roundtrip.
 Print Assumptions C17_value_norm_shape.
 Print Assumptions C17_framing_roundtrip_pre.
 Print Assumptions C17_framing_refuted_pre.
+Print Assumptions C17_framing_roundtrip_mid.
+Print Assumptions C17_test_asserts_lost_pre.
 Print Assumptions C17_value_json_refuted_string.
 Print Assumptions C17_value_json_refuted_complex.
 Print Assumptions C17_value_json_refuted_map.
